@@ -13,6 +13,41 @@ CLAIMED = {
    text="Generated-input search: ~400k (operator, operand tuple, code-path shape, configuration) evaluations per quick run on the real engine in forked workers, each compared with an independent exact-rational / IEEE-double model on the canonical value (read from the SteelVal, not the printer). Finds wrong values, wrap-around (overflow checks are on), non-canonical representations, panics. Not a proof: magnitudes beyond 2^192 and operators outside the listed set are not explored.",
    note="Trusted: num-bigint/num-rational/Rust f64 as reference arithmetic; the canonical value walker (steel::verif::canon, feature verif). `=` is exercised with two operands only (Steel's `=` is binary; a third operand is a clean arity error). For mixed exact/inexact operands both the correctly rounded and the numerator/denominator-wise conversion are accepted.",
    design="DESIGN.md section 4, C10"),
+ "C02": dict(
+   technique="differential property-based testing: generated programs and evaluation histories run under 7 (quick) / 24 (thorough) combinations of the optimisation switches (JIT, inlining, recursive inlining, closure lifting, module inlining), all compared with each other and with the reference interpreter",
+   text="Generated-input search: each generated program / history (same generators as C01 and C06) is executed in forked workers under every selected combination of STEEL_JIT, STEEL_INLINE, STEEL_INLINE_RECURSIVE, STEEL_CLOSURE_LIFTING and STEEL_MODULE_INLINE, as top-level text and as a module; values, output and outcome must be identical across configurations (and equal to the reference interpreter). A failure is classed jitdiv (only the JIT differs) or cfgdiv. Bounded by the generators; no proof.",
+   note="Trusted: reference interpreter, canonical value walker. The combination INLINE+INLINE_RECURSIVE is left out for self-recursive defines (compile time explodes, DESIGN.md). Known JIT divergence classes are listed in known-findings.json and matched by signature.",
+   design="DESIGN.md section 4, C02"),
+ "C04": dict(
+   technique="property-based testing with fault injection (gc-stress hook: forced full collection every N-th allocation) over (a) generated programs and (b) generated object-graph histories, against a collector-free reference model plus heap invariants (stale-handle and free-list accounting hooks)",
+   text="Generated-input search: (a) ~3000 generated programs rich in boxes / mutable vectors / assigned captured variables, run with a forced full collection at every N-th allocation (N in 1,2,3,5,17), JIT on/off, text and module entry, compared with the reference interpreter; (b) ~1500 object-graph histories: trees and DAGs over all 10 container kinds (box, mutable/immutable vector, list, dotted pair, hash, mutable/immutable struct, closures over assigned/unassigned variables) rooted in globals, locals, arguments, operand-stack temporaries and saved continuations, mutated through access paths, with root drops, aliasing, garbage churn (incl. cyclic garbage), requested, natural and forced collections; a Scheme walker's dump of every root must equal the model's after each check step, and the stale-handle / accounting hooks must read zero. Bounded by generator sizes; no proof.",
+   note="Trusted: the hooks in steel-core (feature verif): gc-stress only adds collections at allocation points where the collector may run anyway; under gc-stress a forced collection of a <50% full heap does not double the heap (hook commit), otherwise policy is unchanged. Values held only by the host (results of earlier top-level forms) are not roots in Steel and are outside the property as read here.",
+   design="DESIGN.md section 4, C04"),
+ "C05": dict(
+   technique="stateful property-based testing with a harness-owned schedule: generated (operation history, schedule) pairs over steel_rc::BiasedRc executed on real threads serialised by a token-passing scheduler that yields before every access of a count word (steel-rc feature verif); bounded-exhaustive schedule enumeration in the thorough tier; oracle = handle-count model + destruction invariants on quarantined boxes",
+   text="Generated-input search: 300k (quick) generated histories of clone / drop / move-to-thread / get_mut / make_mut / try_unwrap / strong_count / read / merge / thread exit by 2-3 threads on 1-2 objects, each with a generated interleaving of the atomic steps; invariants: destroyed at most once, never while a handle exists, never touched after destruction (boxes are quarantined, not freed), exclusive access only for a sole holder. Thorough adds all schedules of histories with 2 threads x <=3 operations. Sequentially consistent interleavings only.",
+   note="Trusted: the yield-point placement (before each load/CAS/fetch of the shared word and each owner-counter access), the scheduler. Weak-memory reorderings are not explored. A leak (never destroyed) is reported only in operation-atomic mode where the model is exact.",
+   design="DESIGN.md section 4, C05"),
+ "C06": dict(
+   technique="stateful (model-based) property-based testing: generated evaluation histories on one engine compared step by step with a reference binding model",
+   text="Generated-input search: 3000 (quick) histories of 3-40 evaluations on one engine: define / redefine / set! of functions, variables and closures (incl. composed closures capturing other globals), failing steps (syntax error, free identifier, run time error after a completed definition), bulk shadowing of 40-205 bindings and 50-420 fresh definitions (crossing the global-slot recycling thresholds), probes that call every live function; every step's values, output and outcome must equal the reference interpreter's binding model; JIT on and off.",
+   note="Trusted: reference interpreter's binding model (definitions create locations; compiled code keeps the locations it resolved). Same-piece constant folding of later-assigned globals is a listed known finding excluded by construction.",
+   design="DESIGN.md section 4, C06"),
+ "C07": dict(
+   technique="fuzzing / property-based testing of the whole evaluation entry point: (a) generated program text (token soup, mutated valid programs, unicode) with a deterministic step-count interrupt, (b) every exported builtin called with generated argument tuples from a value pool, (c) failing histories; oracle = no panic / abort / hang and a usability probe (known functions, counters, stack depths) after every input",
+   text="Generated-input search: ~6000 texts, ~60000 builtin calls over all ~1300 exported builtins (deny list for blocking / process / filesystem functions), and failing histories per quick run, in forked workers; any panic (caught or aborting), fatal signal or non-zero exit is a violation, as is an engine that no longer evaluates the probe program correctly afterwards. Panics are keyed by source location so that each root cause is one finding. Watchdog / out-of-memory / capacity-overflow requests are inconclusive, not violations.",
+   note="Trusted: the worker's catch_unwind + fork isolation; the probe program. Resource exhaustion by request ((range 4611686018427387904)) is judged like OOM. Builtins that block, spawn processes, touch the filesystem or exit are not called.",
+   design="DESIGN.md section 4, C07"),
+ "C08": dict(
+   technique="property-based testing against a reference interpreter with first-class heap continuations and R7RS common-ancestor winding: generated programs built around control templates (re-entry, escapes, winds, handlers)",
+   text="Generated-input search: 6000 (quick) programs embedding control templates (continuation stored and re-entered 1-3 times from a let binding / argument position / map callback / 1-3 nested dynamic-wind extents / a sibling wind, escapes through winds and from deep recursion, errors crossing winds to handlers, nested handlers) in generated expressions; trace of before/after thunks, output, values and outcome must equal the reference interpreter's; JIT on/off, text and module entry.",
+   note="Trusted: the reference interpreter's control model. A continuation captured in one top-level form extends to the end of that form. State that must survive re-entry lives in boxes (un-captured set! locals are restored on re-entry in Steel, which the property's wording allows).",
+   design="DESIGN.md section 4, C08"),
+ "C09": dict(
+   technique="property-based testing with an invariant oracle: generated loop shapes x iteration counts x JIT on/off x entry mode; frame / operand stack depth probes (hook #%verif-depths) at three iterations plus the closed-form result",
+   text="Generated-input search: 600 (quick) loops from 22 shape families (self, mutual among 2-4, through a parameter, through apply, rest arguments with surplus, let temporaries, captured variables, tail position in cond/case/when/and/or/begin, out of an inner named let, from a handler body, k-accumulator argument shuffles with 0-3 nested lets of 1-3 temporaries, self or mutual) at 10^3..10^6 (thorough 10^7) iterations; the stack depths at iterations 24, n/2 and n-16 must not grow and the result must equal the closed form; non-tail recursion of depth 10^4..2*10^7 must end in a value or an error value.",
+   note="Trusted: hook #%verif-depths (lengths of the frame stack and operand stack). Depth growth is judged up to a small constant (8 between middle and end) because the JIT tier changes frame layout once early in a loop.",
+   design="DESIGN.md section 4, C09"),
 }
 NOT_YET = "check not built yet in this revision of /verif (work in progress; see DESIGN.md for the planned generated-input check)"
 props = [json.loads(l) for l in open('/verif/properties.jsonl')]
@@ -31,6 +66,7 @@ m = {
  "engines": [
    {"name":"svcheck","path":"/verif/harness/svcheck","serves_properties":sorted(CLAIMED),"kind_free_text":"proptest driver: generators, shrinking, oracles, evidence, known findings, replay"},
    {"name":"svworker","path":"/verif/harness/svworker","serves_properties":sorted(CLAIMED),"kind_free_text":"fork-server: one booted Steel engine per configuration, one forked child per case (crash isolation, pristine state)"},
+   {"name":"svrc","path":"/verif/harness/svrc","serves_properties":["C05"],"kind_free_text":"steel-rc scheduler harness: real threads serialised by a token-passing scheduler at the verif yield points, quarantine of destroyed boxes"},
    {"name":"svmodel","path":"/verif/harness/svmodel","serves_properties":sorted(CLAIMED),"kind_free_text":"reference models (numeric tower, reference Scheme interpreter, collection models) — no Steel code"},
  ],
  "checks": [],
@@ -43,10 +79,10 @@ for p in props:
         c = CLAIMED[pid]
         m["checks"].append({
           "property_id": pid,
-          "quick_cmd": "bin/check %s quick" % pid,
-          "thorough_cmd": "bin/check %s thorough" % pid,
+          "quick_cmd": "/verif/bin/check %s quick" % pid,
+          "thorough_cmd": "/verif/bin/check %s thorough" % pid,
           "evidence_file": "/verif/evidence/%s.json" % pid,
-          "replay_cmd_template": "bin/check %s --replay {path}" % pid,
+          "replay_cmd_template": "/verif/bin/check %s --replay {path}" % pid,
           "engine": "svcheck",
           "level_claimed": {"category":"exploration","text":c["text"],"design_ref":c["design"]},
           "level_note": c["note"],
